@@ -38,6 +38,17 @@ fn bodies() -> Vec<(&'static str, Vec<u8>)> {
         ("DI..EI", vec![0x0C, 0x44, 0x45, 0x08]),
         ("LDFR 0;NOP;LDFR 8", vec![0xFB, 0x00, 0x44, 0x02, 0xFB, 0x08, 0x44]),
         ("ST (0xFE),R0", vec![0xF0, 0x1F, 0xFE]),
+        // one instruction per remaining opcode block, so that every "int:" word of the control store is exercised
+        ("NOP;CLR R1", vec![0x02, 0x05]),
+        ("COM;LSR;NEG", vec![0x31, 0x38, 0x36]),
+        ("DEC R1;DEC (R2)", vec![0x51, 0x56]),
+        ("SUB R1,R2", vec![0x89]),
+        ("AND R1,R2", vec![0x99]),
+        ("OR R2,R0", vec![0xA2]),
+        ("XOR R0,R1", vec![0xD4]),
+        ("BITT R0,R1", vec![0xF1, 0x30]),
+        ("BITS R0,R1;BITC (R2),R0", vec![0xF1, 0x50, 0xF0, 0x66]),
+        ("RRC;ASR", vec![0x40, 0x3D]),
     ]
 }
 
@@ -51,7 +62,11 @@ fn isrs() -> Vec<(&'static str, Vec<u8>)> {
     ]
 }
 
-fn build(body: &[(&'static str, Vec<u8>)], isr: usize, enable_bit: bool, ei: bool) -> Prog {
+/// Initial register values of the main program: chosen so that the instructions of the bodies end
+/// with every flag both set and clear somewhere (a flag clobbered by the entry sequence must show).
+const INITS: [(u8, u8, u8); 4] = [(5, 3, 0x84), (0xF5, 0x23, 0x84), (0x80, 0x80, 0x90), (0x00, 0x00, 0x88)];
+
+fn build(body: &[(&'static str, Vec<u8>)], isr: usize, enable_bit: bool, ei: bool, init: usize) -> Prog {
     let mut ram = [0u8; 240];
     // data area for pointer modes
     for i in 0x80..0xC0usize {
@@ -74,7 +89,8 @@ fn build(body: &[(&'static str, Vec<u8>)], isr: usize, enable_bit: bool, ei: boo
     sw::place(&mut ram, SUB, &[0x46, 0x17]);
     // main
     let mut main: Vec<u8> = vec![0xFB, 0xEF, 0x40]; // LDSP 0xEF
-    main.extend([0xFB, 0x05, 0x10, 0xFB, 0x03, 0x11, 0xFB, 0x84, 0x12]); // LD R0,5 ; LD R1,3 ; LD R2,0x84
+    let (i0, i1, i2) = INITS[init];
+    main.extend([0xFB, i0, 0x10, 0xFB, i1, 0x11, 0xFB, i2, 0x12]); // LD R0,.. ; LD R1,.. ; LD R2,..
     if enable_bit {
         main.extend([0xFB, 0x01, 0x5F, 0xF9]); // BITS (0xF9),1
     }
@@ -93,7 +109,7 @@ fn build(body: &[(&'static str, Vec<u8>)], isr: usize, enable_bit: bool, ei: boo
     assert!(MAIN as usize + main.len() < 0x80);
     sw::place(&mut ram, MAIN, &main);
     Prog {
-        name: format!("isr={} enable={} ei={} body={:?}", isrs()[isr].0, enable_bit, ei, names),
+        name: format!("isr={} enable={} ei={} init={} body={:?}", isrs()[isr].0, enable_bit, ei, init, names),
         ram,
         end,
         isr,
@@ -343,21 +359,27 @@ fn family(quick: bool) -> Vec<Prog> {
             continue;
         }
         for isr in 0..3 {
-            // quick: rotate the ISR over the two-instruction bodies instead of taking the product
-            if quick && s.len() == 2 && isr != si % 3 {
-                continue;
-            }
+            // quick: every ISR for bodies up to length 2; thorough: also length 3 with the ISR rotated
             if !quick && s.len() == 3 && isr != si % 3 {
                 continue;
             }
-            v.push(build(&body, isr, true, true));
+            for init in 0..INITS.len() {
+                // thorough: every init for every program; quick: all inits for bodies up to length 1, rotated beyond
+                if quick && s.len() == 2 && init != (si + isr) % INITS.len() {
+                    continue;
+                }
+                if !quick && s.len() == 3 && init != (si + isr) % INITS.len() {
+                    continue;
+                }
+                v.push(build(&body, isr, true, true, init));
+            }
         }
     }
     // enable bit never set; set but EI absent
     for s in seqs.iter().filter(|s| s.len() == 1) {
         let body: Vec<(&'static str, Vec<u8>)> = s.iter().map(|&i| b[i].clone()).collect();
-        v.push(build(&body, 1, false, true));
-        v.push(build(&body, 1, true, false));
+        v.push(build(&body, 1, false, true, 1));
+        v.push(build(&body, 1, true, false, 1));
     }
     v
 }
@@ -469,7 +491,7 @@ pub fn run() {
         let mut out = Out::default();
         for i in r {
             // pairs: for every 4th program in quick, every program in thorough
-            let pairs = if quick { i % 8 == 0 } else { i % 2 == 0 };
+            let pairs = if quick { i % 4 == 0 } else { i % 2 == 0 };
             check_prog(i, &fam[i], pairs, &mut out);
         }
         out
@@ -510,7 +532,7 @@ pub fn run() {
     ctx.set("distinct_nontrivial", all.runs - all.by_count.get(&0).cloned().unwrap_or(0));
     ctx.set("rule", "schedule = (program, multiset of trigger edges); deviation 0: no trigger; 1: one trigger before every clock edge 0..T of the run; 2: every ordered pair of trigger edges in a 120-edge window; every schedule is executed edge by edge on the real machine and compared with the uninterrupted twin; distinct_nontrivial = schedules in which the routine was entered at least once");
     ctx.set("exhaustive", true);
-    ctx.set("bounds", format!("{} programs (prologue + every body sequence of length <= {} over 14 instruction kinds x ISRs {{RETI, counter, MUL+CALL}}, + enable-bit-clear and EI-less variants); deviation bound 2 (pairs on {} of the programs)", fam.len(), if quick { 2 } else { 3 }, if quick { "1/8" } else { "1/2" }));
+    ctx.set("bounds", format!("{} programs (prologue + every body sequence of length <= {} over 24 instruction kinds x ISRs {{RETI, counter, MUL+CALL}}, + enable-bit-clear and EI-less variants); deviation bound 2 (pairs on {} of the programs)", fam.len(), if quick { 2 } else { 3 }, if quick { "1/4" } else { "1/2" }));
     ctx.set("schedules", all.runs);
     ctx.set("routine_entries_observed", all.entries);
     ctx.set("entries_required_by_statement", all.normative);
